@@ -27,10 +27,114 @@ THEOREMS = [A + t for t in ["C08_time_decreases", "C08_loop_terminates", "C08_ea
 THEOREMS_R = [B + t for t in ["C08_mirror_normal", "C08_mirror_tangential", "C08_mirror_explicit", "C08_mirror_speed", "C08_mirror_speed_norm",
                               "C08_mirror_position", "C08_bounce_back", "C08_bounce_back_speed", "C08_stochastic_speed", "C08_stochastic_inward",
                               "C08_stochastic_position", "C08_reemitted_inside", "C08_mirror_rat_instance", "C08_bounce_back_rat_instance"]]
+F = "Sympler.PropsR.C08F."
+THEOREMS_F = [F + t for t in ["gslReal_spec", "insertionSort_spec", "C08F_sound", "C08F_sound_ge", "C08F_complete", "C08F_first_crossing", "C08F_sorted",
+                              "firstHit_of_min", "C08F_hit_reports_first_crossing", "C08F_timeEps"]]
+TR3 = "translator t_hittime (IntegratorVelocityVerlet::solveHitTimeEquation statement by statement: both branches, every push_back, the sort, early returns)"
 BR = ["Sympler.Collide." + t for t in ["Bridge_hitTime", "Bridge_wallHit", "Bridge_better", "Bridge_remaining", "Bridge_loop_constants"]]
-MODULES = ["Sympler.Collide", "Sympler.CollideLemmas", "Sympler.CollideStepLemmas", "PropsR.Gen.ReflectorsReal", "Sympler.Gen.CollideGen", "Props.C08", "Props.CollideBridge", "PropsR.C08"]
+MODULES = ["Sympler.Collide", "Sympler.CollideLemmas", "Sympler.CollideStepLemmas", "PropsR.Gen.ReflectorsReal", "Sympler.Gen.CollideGen", "Props.C08", "Props.CollideBridge", "PropsR.C08",
+           "PropsR.Gen.HitTimeReal", "Sympler.Gen.HitTimeFloat", "Sympler.HitTimeDrv", "PropsR.C08Force"]
 TR2 = "translator t_collide (loop bound and per-pass reset of Cell::doCollision, earliest-hit comparison, WallTriangle::hit time tests, linear hit time, hitPos, epsilons)"
 TR = "translator t_reflectors (ReflectorMirror / BounceBack / Stochastic ::reflect by symbolic execution)"
+
+
+def f2b(x):
+    import struct
+    return struct.unpack("<Q", struct.pack("<d", float(x)))[0]
+
+
+def b2f(b):
+    import struct
+    return struct.unpack("<d", struct.pack("<Q", int(b)))[0]
+
+
+def hittime_validation(ctx, ht_ok):
+    """sampled differential evaluation: generated Float definition of solveHitTimeEquation (symdrv, GSL's formula transcribed)
+    = the REAL member function (harness/h_hittime.cpp, real GSL), bit for bit; and WallTriangle::hit on an unbounded face returns the
+    first result in (0, dt]"""
+    import random
+    from fractions import Fraction as Fr
+    okh, o, binp = common.build_harness("h_hittime")
+    ctx.oblige("harness h_hittime builds (real IntegratorVelocityVerlet, WallContainer, WallTriangle)", okh, o[-300:])
+    r = random.Random(ctx.seed * 31 + 8)
+    n = 400 if not ctx.thorough else 6000
+    reqs = []
+    for k in range(n):
+        d, high, L = r.randrange(3), r.randrange(2), float(r.choice([2, 3, 4, 4.5]))
+        sgn = -1.0 if high else 1.0
+        mass = r.choice([1.0, 1.0, 2.0, 0.5, 1.5])
+        pos = [r.uniform(0.1, L - 0.1) for _ in range(3)]
+        vel = [r.choice([0.0, r.uniform(-2, 2), float(Fr(r.randint(-8, 8), 8))]) for _ in range(3)]
+        frc = [r.choice([0.0, 0.0, r.uniform(-20, 20), float(2 ** r.randint(0, 5)) * r.choice([-1, 1])]) for _ in range(3)]
+        kind = k % 8
+        if kind == 0:
+            # exact dyadic roots: receding from the wall, pulled back (the `pullback` family of sim/corr_walls.py)
+            a = float(2 ** r.randint(1, 4)); t1 = float(Fr(r.randint(1, 7), 64)); vn = a * t1 * r.choice([0.5, 0.25, 0.75])
+            dist = a * t1 * t1 - vn * t1
+            pos[d] = L - dist if high else dist
+            vel[d] = sgn * vn
+            frc[d] = -sgn * 2 * a * mass
+        elif kind == 1:
+            frc[d] = 0.0                      # linear branch
+        elif kind == 2:
+            frc[d] = 0.0; vel[d] = 0.0        # a == 0 and b == 0: division by zero
+        elif kind == 3:
+            # double root: discriminant exactly zero  (c = b^2 / (4 a), dyadic)
+            a = float(2 ** r.randint(0, 3)); b = -float(Fr(r.randint(1, 8), 4)); c = b * b / (4 * a)
+            if c < L:
+                pos[d] = L - c if high else c; vel[d] = sgn * b; frc[d] = sgn * 2 * a * mass
+        elif kind == 4:
+            # no real root: pushed away from the wall
+            frc[d] = sgn * abs(frc[d] or 3.0); vel[d] = sgn * abs(vel[d])
+        reqs.append((d, high, L, pos, vel, frc, mass, r.choice([0.125, 0.0625, 0.25, 1.0])))
+    mism, nres, samples, hits = [], {}, [], 0
+    if okh and ht_ok and os.path.exists(common.symdrv()):
+        lines = []
+        for (d, high, L, pos, vel, frc, mass, dt) in reqs:
+            args = "%d %d %r %s %s %s %r" % (d, high, L, " ".join(repr(x) for x in pos), " ".join(repr(x) for x in vel), " ".join(repr(x) for x in frc), mass)
+            lines.append("solve " + args)
+            lines.append("hit " + args + " %r" % dt)
+        rc, out = common.sh([binp], input="\n".join(lines) + "\n", timeout=600)
+        real = out.splitlines()
+        mlines = []
+        for k, (d, high, L, pos, vel, frc, mass, dt) in enumerate(reqs):
+            # the dot products with the wall normal are parameters of the generated definition: taken from the real evaluation
+            w = real[2 * k].split() if 2 * k < len(real) else []
+            dots = w[w.index("dots") + 1:w.index("dots") + 5] if "dots" in w else ["0", "0", "0", "0"]
+            mlines.append("solve %d %d %s %s %s %s" % (f2b(0.0), f2b(mass), dots[0], dots[1], dots[2], dots[3]))
+        model = common.run_model("hittime", mlines)
+        for k, q in enumerate(reqs):
+            rs = real[2 * k].split() if 2 * k < len(real) else ["?"]
+            rh = real[2 * k + 1].split() if 2 * k + 1 < len(real) else ["?"]
+            ms = model[k].split() if k < len(model) else ["?"]
+            rtimes = rs[2:2 + int(rs[1])] if rs[0] == "times" else None
+            mtimes = ms[2:] if ms[0] == "times" else None
+            nres[len(rtimes) if rtimes is not None else -1] = nres.get(len(rtimes) if rtimes is not None else -1, 0) + 1
+            same = rtimes is not None and mtimes is not None and len(rtimes) == len(mtimes) and all(
+                a == b or (b2f(a) != b2f(a) and b2f(b) != b2f(b)) for a, b in zip(rtimes, mtimes))
+            if not same:
+                mism.append(dict(request=lines[2 * k], real=rs, generated=ms))
+                continue
+            # WallTriangle::hit on the unbounded face = first result t with eps < t (results beyond dt end the search)
+            dt = q[7]
+            exp = None
+            for tb in rtimes:
+                t = b2f(tb)
+                if t > dt:
+                    break
+                if t > 0.0:
+                    exp = tb
+                    break
+            got = rh[2] if (rh[0] == "hit" and rh[1] == "1") else None
+            hits += got is not None
+            if got != exp:
+                mism.append(dict(request=lines[2 * k + 1], real=rh, expected_first_result_in_step=exp))
+            elif len(samples) < 3 and rtimes:
+                samples.append(dict(request=lines[2 * k], times=[b2f(x) for x in rtimes], hit=b2f(got) if got else None))
+    ctx.oblige("translation validation: generated solveHitTimeEquation (Float, GSL formula transcribed) = real member function with real GSL, bit for bit, on %d sampled walls/particles/forces (result counts %s); WallTriangle::hit = first result in (0, dt] (%d hits)"
+               % (len(reqs), dict(sorted(nres.items())), hits), okh and ht_ok and bool(nres) and not mism, str(mism[:2])[:600])
+    ctx.coverage["hittime_validation"] = dict(samples=samples, result_count_histogram={str(k): v for k, v in nres.items()}, mismatches=len(mism))
+    ctx.hittime_mismatch = mism[:3]
 
 
 def run(ctx):
@@ -47,7 +151,18 @@ def run(ctx):
         ctx.oblige(TR2, True)
     except Exception as ex:
         ctx.oblige(TR2, False, repr(ex))
-    common.lean_obligations(ctx, ["Props.C08", "Props.CollideBridge", "PropsR.C08", "Sympler.Collide", "symdrv"], ["Props.C08", "Props.CollideBridge", "PropsR.C08"], THEOREMS + BR + THEOREMS_R, MODULES)
+    ht_ok = True
+    try:
+        import t_hittime
+        common.write_if_changed(os.path.join(common.LEAN, "PropsR/Gen/HitTimeReal.lean"), t_hittime.generate_real(common.REPO))
+        common.write_if_changed(os.path.join(common.LEAN, "Sympler/Gen/HitTimeFloat.lean"), t_hittime.generate_float(common.REPO))
+        ctx.oblige(TR3, True)
+    except Exception as ex:
+        ht_ok = False
+        ctx.oblige(TR3, False, repr(ex))
+    common.lean_obligations(ctx, ["Props.C08", "Props.CollideBridge", "PropsR.C08", "PropsR.C08Force", "Sympler.Collide", "symdrv"], ["Props.C08", "Props.CollideBridge", "PropsR.C08", "PropsR.C08Force"],
+                            THEOREMS + BR + THEOREMS_R + THEOREMS_F, MODULES)
+    hittime_validation(ctx, ht_ok)
     n = 120 if not ctx.thorough else 4000
     workers = 12
     per = (n + workers - 1) // workers
@@ -61,10 +176,17 @@ def run(ctx):
             return json.loads(p.stdout)
         except Exception:
             return {"error": p.stdout[-300:] + p.stderr[-300:]}
+    def corpus(_):
+        p = subprocess.run([sys.executable, os.path.join(common.VERIF, "sim", "corr_walls.py"), "0", "0", "--corpus", "--keep", os.path.join(base, "corpus"),
+                            "--sympler", common.sympler()], stdout=subprocess.PIPE, stderr=subprocess.PIPE, text=True, env=env, timeout=3600)
+        try:
+            return json.loads(p.stdout)
+        except Exception:
+            return {"error": p.stdout[-300:] + p.stderr[-300:]}
     parts = []
     if ok and os.path.exists(common.symdrv()):
         with ThreadPoolExecutor(max_workers=workers) as ex:
-            parts = list(ex.map(one, range(workers)))
+            parts = [corpus(0)] + list(ex.map(one, range(workers)))
     shutil.rmtree(base, ignore_errors=True)
     errs = [p["error"] for p in parts if "error" in p]
     parts = [p for p in parts if "error" not in p]
@@ -84,11 +206,11 @@ def run(ctx):
                not dis, str([dict(what=d.get("what"), kind=d.get("kind"), r=d.get("r"), v=d.get("v")) for d in dis[:2]])[:500])
     known = [f["signature"] for f in common.known_findings().get("open", []) if f.get("property") == "C08"]
     unknown = [f for f in fails if not any(k in f["signature"] for k in known)]
-    ctx.oblige("oracle on the real runs: particle number constant, inside the domain, speed, mirror law, bounce-back law (%d scenarios, %d steps; all reflectors, with and without forces); %d failures, all of them the recorded known finding(s) %s"
-               % (tot["oracle_cases"], tot["oracle_steps"], len(fails), known), not unknown, str([dict(sig=f["signature"], what=f["what"]) for f in unknown[:2]])[:500])
+    ctx.oblige("oracle on the real runs: particle number constant, inside the domain, speed, mirror law, bounce-back law (%d scenarios, %d steps; all reflectors, with and without forces); %d failures, %d of them NOT the recorded known finding(s) %s"
+               % (tot["oracle_cases"], tot["oracle_steps"], len(fails), len(unknown), known), not unknown, str([dict(sig=f["signature"], what=f["what"]) for f in unknown[:2]])[:500])
     ctx.coverage.update(dict(evaluations=tot["ncases"], distinct_nontrivial=tot["oracle_cases"], traces_validated_against_impl=tot["compared_cases"],
                              rule="one free particle in a BoundaryCuboid (all 8 wall/periodic combinations), kinds headon / oblique / edge / corner / multi / endhit / graze / percross / chord / "
-                                  "fast / stoch / force of sim/corr_walls.py, all three reflectors; non-trivial = the real run produced a dump the oracles were applied to; distinct by construction",
+                                  "fast / stoch / force / pullback (receding from a wall, pulled back by a force) of sim/corr_walls.py, all three reflectors; non-trivial = the real run produced a dump the oracles were applied to; distinct by construction",
                              histogram=dict(hist, totals=tot), samples=[dict(kinds=hist.get("kinds"), first_oracle_failure=(fails[0] if fails else None))]))
     ctx.assumptions += ["PARTIAL: accelerated flight (quadratic hit times, GSL), grazing/edge decisions by c_wt_dist_eps in double arithmetic, triangulated STL walls and ReflectorStochastic in the loop are reached only by the oracles",
                         "eps = c_rm_disp_eps = 1e-10, delta = -c_wt_dist_eps = 1e-5, geps = g_geom_eps are passed to the model as the exact rationals of these doubles",
@@ -102,7 +224,12 @@ def run(ctx):
                 ctx.violation("C08 violated on the real binary (%s): %s" % (sig, f["what"][:300]),
                               dict(kind="input", failing_obligations=failing, signature=sig, scenario=f,
                                    how_to_replay="one particle with the given r, v, dt, steps, box, periodicity, reflector (sim/corr_walls.py to_symlib); sympler in.xml; obs.txt"), True, signature=sig)
-        if [o for o in failing if "oracle" not in o]:
+        hm = getattr(ctx, "hittime_mismatch", [])
+        if hm:
+            # the generated definition and the real member function differ on a concrete wall / particle / force: that input is the replay
+            ctx.violation("C08: solveHitTimeEquation / WallTriangle::hit of the real code differs from its statement-level translation on a sampled input",
+                          dict(kind="input", failing_obligations=failing, mismatches=hm, how_to_replay="echo '<request>' | .work/bin/h_hittime  (results as IEEE-754 bit patterns)"), True)
+        elif [o for o in failing if "oracle" not in o] and not unknown:
             ctx.violation("C08 is no longer shown to hold: " + "; ".join([o for o in failing if "oracle" not in o][:3]),
                           dict(kind="proof-or-correspondence", failing_obligations=failing, lake_errors=getattr(ctx, "lake_errors", []),
                                first_differences=dis[:2]), bool(fails) and False)
